@@ -2310,7 +2310,7 @@ def glom(target, spec, **kwargs):
         else:  # wrapping failed, fall back to default behavior
             raise
 
-    if err:
+    if err is not None:  # an exception object can be falsy (__len__ / __bool__)
         raise err
     return ret
 
